@@ -1,6 +1,8 @@
 //! Expression layer: builds SimpleExpr values from the case language (AST constructors and a few
 //! API-level nodes), renders them, and dumps the finite tables (operator spellings, function
 //! names, parenthesis decisions) obtained by executing the code.
+use sea_query::extension::postgres::PgExpr;
+use sea_query::extension::sqlite::SqliteExpr;
 use crate::sexp::S;
 use crate::util::*;
 use sea_query::extension::postgres::{PgBinOper, PgFunc};
@@ -186,6 +188,57 @@ pub fn func_call(name: &str, args: Vec<SimpleExpr>) -> FunctionCall {
 }
 
 /// the ExprTrait method that is documented to build `l <op> r`, where there is one
+/// the same method through the three places it is defined: the ExprTrait default, the inherent method of `Expr`
+/// (`Expr::expr(e).m(..)`) and the inherent method of `SimpleExpr`
+macro_rules! via {
+    ($s:expr, $e:expr, $m:ident ( $($a:expr),* )) => {{
+        let e0: SimpleExpr = $e;
+        match (shash($s) >> 17) % 3 {
+            0 => ExprTrait::$m(e0, $($a),*),
+            1 => Expr::expr(e0).$m($($a),*),
+            _ => e0.$m($($a),*),
+        }
+    }};
+}
+
+fn r_is_even(r: &SimpleExpr) -> bool {
+    format!("{:?}", r).len() % 2 == 0
+}
+
+/// binary operators through the inherent methods of `Expr` and the backend extension traits
+fn api_bin_expr(l: SimpleExpr, op: &str, r: SimpleExpr) -> Option<SimpleExpr> {
+    let x = Expr::expr(l);
+    Some(match op {
+        "eq" => x.eq(r),
+        "ne" => x.ne(r),
+        "lt" => x.lt(r),
+        "gt" => x.gt(r),
+        "le" => x.lte(r),
+        "ge" => x.gte(r),
+        "add" => x.add(r),
+        "sub" => x.sub(r),
+        "mul" => x.mul(r),
+        "div" => x.div(r),
+        "mod" => x.modulo(r),
+        "lshift" => x.left_shift(r),
+        "rshift" => x.right_shift(r),
+        "is" => x.is(r),
+        "isnot" => x.is_not(r),
+        // PgExpr: ILike / NotILike take a LikeExpr (the right operand must be a plain string value): not here
+        "pg2" => PgExpr::matches(x, r),
+        "pg3" => PgExpr::contains(x, r),
+        "pg4" => PgExpr::contained(x, r),
+        "pg5" => if r_is_even(&r) { PgExpr::concatenate(x, r) } else { PgExpr::concat(x, r) },
+        "pg13" => PgExpr::get_json_field(x, r),
+        "pg14" => PgExpr::cast_json_field(x, r),
+        "sl0" => SqliteExpr::glob(x, r),
+        "sl1" => SqliteExpr::matches(x, r),
+        "sl2" => SqliteExpr::get_json_field(x, r),
+        "sl3" => SqliteExpr::cast_json_field(x, r),
+        _ => return None,
+    })
+}
+
 fn api_bin(l: SimpleExpr, op: &str, r: SimpleExpr) -> Option<SimpleExpr> {
     Some(match op {
         "eq" => ExprTrait::eq(l, r),
@@ -376,11 +429,29 @@ pub fn expr(s: &S) -> SimpleExpr {
         "bin" => {
             let (lft, rgt) = (expr(&l[1]), expr(&l[2]));
             let name = l[0].atom();
-            match shash(s) % 3 {
+            match shash(s) % 5 {
                 1 => match api_bin(lft.clone(), name, rgt.clone()) {
                     Some(e) => e,
                     None => SimpleExpr::Binary(Box::new(lft), binop_named(name), Box::new(rgt)),
                 },
+                3 => match api_bin_expr(lft.clone(), name, rgt.clone()) {
+                    Some(e) => e,
+                    None => Expr::expr(lft).binary(binop_named(name), rgt),
+                },
+                4 => {
+                    // a column on the right: the equals / not_equals helpers
+                    if let (true, SimpleExpr::Column(c)) = (matches!(name, "eq" | "ne"), &rgt) {
+                        let c = c.clone();
+                        match (name, (shash(s) >> 9) % 2) {
+                            ("eq", 0) => ExprTrait::equals(lft, c),
+                            ("eq", _) => Expr::expr(lft).equals(c),
+                            (_, 0) => ExprTrait::not_equals(lft, c),
+                            (_, _) => Expr::expr(lft).not_equals(c),
+                        }
+                    } else {
+                        lft.binary(binop_named(name), rgt)
+                    }
+                }
                 2 => ExprTrait::binary(lft, binop_named(name), rgt),
                 _ => SimpleExpr::Binary(Box::new(lft), binop_named(name), Box::new(rgt)),
             }
@@ -388,6 +459,25 @@ pub fn expr(s: &S) -> SimpleExpr {
         "fn" => {
             let name = l[0].atom();
             let args: Vec<SimpleExpr> = l[1..].iter().map(expr).collect();
+            if shash(s) % 4 == 1 && args.len() == 1 {
+                // the aggregate helpers of Expr / ExprTrait
+                let x = args[0].clone();
+                match (name, (shash(s) >> 7) % 2) {
+                    ("max", 0) => return Expr::expr(x).max(),
+                    ("max", _) => return Expr::expr(x).max(),
+                    ("min", 0) => return Expr::expr(x).min(),
+                    ("min", _) => return Expr::expr(x).min(),
+                    ("sum", 0) => return Expr::expr(x).sum(),
+                    ("sum", _) => return Expr::expr(x).sum(),
+                    ("count", 0) => return Expr::expr(x).count(),
+                    ("count", _) => return Expr::expr(x).count(),
+                    _ => {}
+                }
+            }
+            if shash(s) % 4 == 1 && args.len() == 2 && name == "ifnull" {
+                let (x, y) = (args[0].clone(), args[1].clone());
+                return if (shash(s) >> 7) % 2 == 0 { Expr::expr(x).if_null(y) } else { Expr::expr(x).if_null(y) };
+            }
             if shash(s) % 4 != 0 {
                 if let Some(fc) = api_func(name, &args) {
                     return SimpleExpr::FunctionCall(fc);
@@ -400,7 +490,11 @@ pub fn expr(s: &S) -> SimpleExpr {
             };
             SimpleExpr::FunctionCall(fc.args(args))
         }
-        "countdistinct" => SimpleExpr::FunctionCall(Func::count_distinct(expr(&l[0]))),
+        "countdistinct" => match shash(s) % 3 {
+            0 => SimpleExpr::FunctionCall(Func::count_distinct(expr(&l[0]))),
+            1 => Expr::expr(expr(&l[0])).count_distinct(),
+            _ => Expr::expr(expr(&l[0])).count_distinct(),
+        },
         "sq" => {
             let op = match l[0].atom() {
                 "-" => None,
@@ -473,25 +567,25 @@ pub fn expr(s: &S) -> SimpleExpr {
         }
         "const" => SimpleExpr::Constant(value(&l[0])),
         // ---- API-level nodes (the encodings of ExprTrait are part of what is checked) ----
-        "between" => expr(&l[0]).between(expr(&l[1]), expr(&l[2])),
-        "notbetween" => expr(&l[0]).not_between(expr(&l[1]), expr(&l[2])),
+        "between" => via!(s, expr(&l[0]), between(expr(&l[1]), expr(&l[2]))),
+        "notbetween" => via!(s, expr(&l[0]), not_between(expr(&l[1]), expr(&l[2]))),
         "likeapi" => {
             let mut le = LikeExpr::new(hx(&l[1]));
             if l.len() > 2 {
                 le = le.escape(hx(&l[2]).chars().next().unwrap());
             }
-            expr(&l[0]).like(le)
+            via!(s, expr(&l[0]), like(le))
         }
         "notlikeapi" => {
             let mut le = LikeExpr::new(hx(&l[1]));
             if l.len() > 2 {
                 le = le.escape(hx(&l[2]).chars().next().unwrap());
             }
-            expr(&l[0]).not_like(le)
+            via!(s, expr(&l[0]), not_like(le))
         }
-        "isin" => expr(&l[0]).is_in(l[1..].iter().map(value)),
-        "isnotin" => expr(&l[0]).is_not_in(l[1..].iter().map(value)),
-        "intuples" => expr(&l[0]).in_tuples(l[1..].iter().map(|t| {
+        "isin" => via!(s, expr(&l[0]), is_in(l[1..].iter().map(value))),
+        "isnotin" => via!(s, expr(&l[0]), is_not_in(l[1..].iter().map(value))),
+        "intuples" => via!(s, expr(&l[0]), in_tuples(l[1..].iter().map(|t| {
             let mut vs: Vec<Value> = t.list().iter().map(value).collect();
             // the ValueTuple variant of the arity for part of the cases
             if shash(t) % 3 == 0 {
@@ -510,15 +604,16 @@ pub fn expr(s: &S) -> SimpleExpr {
                 }
                 _ => ValueTuple::Many(vs),
             }
-        })),
-        "isnull" => expr(&l[0]).is_null(),
-        "isnotnull" => expr(&l[0]).is_not_null(),
-        "castas" => expr(&l[0]).cast_as(a(&hx(&l[1]))),
+        }))),
+        "isnull" => via!(s, expr(&l[0]), is_null()),
+        "isnotnull" => via!(s, expr(&l[0]), is_not_null()),
+        "castas" => via!(s, expr(&l[0]), cast_as(a(&hx(&l[1])))),
         "fncast" => SimpleExpr::FunctionCall(Func::cast_as(expr(&l[0]), a(&hx(&l[1])))),
         "andapi" => expr(&l[0]).and(expr(&l[1])),
         "orapi" => expr(&l[0]).or(expr(&l[1])),
-        "notapi" => expr(&l[0]).not(),
-        "insub" => expr(&l[0]).in_subquery(crate::stmts::select(&l[1])),
+        "notapi" => via!(s, expr(&l[0]), not()),
+        "insub" => via!(s, expr(&l[0]), in_subquery(crate::stmts::select(&l[1]))),
+        "notinsub" => via!(s, expr(&l[0]), not_in_subquery(crate::stmts::select(&l[1]))),
         "exists" => Expr::exists(crate::stmts::select(&l[0])),
         other => panic!("expr head {}", other),
     }
